@@ -18,6 +18,11 @@ package imagefam
 // The generator draws plain modes, odd permission sets (0000, 0111, 0777, ...) and special
 // bits alone and combined on files and on directory entries (classes mode_*).
 //
+// Entry-less layers: one case in four may contain real layers whose tar stream has no entries
+// (1024 zero bytes) at any position, with an ordinary history entry (not flagged empty_layer)
+// or without usable history: the view of such a layer is the view below it. One top-level name
+// in eight begins with "." or ".." (".a", "..b" next to a, b, c).
+//
 // Absolute entry names: one case in six draws its name styles from "/a", "//a", "/./a", "a"
 // and "./a" (per layer, with per-entry deviations), so that absolute names meet relative
 // ones on files, directory entries, symlinks, whiteouts and opaque markers, overwrite each
@@ -349,6 +354,16 @@ func c04Features(cs c04Case) (finding map[string]bool, labels map[string]bool, a
 			} else {
 				relInLayer = true
 			}
+			if op.Kind != overlay.OpSkip && strings.HasPrefix(op.Path, "/.") {
+				labels["dot_prefixed_root_name"] = true
+				top := "/" + strings.SplitN(op.Path[1:], "/", 2)[0]
+				if overlay.Depth(op.Path) == 1 {
+					labels["dot_prefixed_root_entry:"+e.Kind] = true
+				}
+				if _, ok := views[k]["/"+strings.TrimLeft(top, "/.")]; ok {
+					labels["dot_prefixed_root_name_with_dotless_sibling"] = true
+				}
+			}
 			switch op.Kind {
 			case overlay.OpPut:
 				puts[op.Path] = e.Kind
@@ -610,6 +625,7 @@ func c04Features(cs c04Case) (finding map[string]bool, labels map[string]bool, a
 	if len(cs.Image.Layers) >= 2 {
 		labels["layers_ge2"] = true
 	}
+	c04EntrylessLabels(cs, views, labels)
 	hist := cs.Image.EffectiveHistory()
 	switch {
 	case cs.Image.OmitHistory:
@@ -637,6 +653,54 @@ func c04Features(cs c04Case) (finding map[string]bool, labels map[string]bool, a
 		labels["requirer_all"] = true
 	}
 	return finding, labels, affectsLower
+}
+
+// c04EntrylessLabels counts the positions of layers whose tar stream has no entries.
+func c04EntrylessLabels(cs c04Case, views []overlay.View, labels map[string]bool) {
+	content := false // some layer below has entries
+	for k, l := range cs.Image.Layers {
+		if len(l.Entries) > 0 {
+			content = true
+			continue
+		}
+		labels["entryless_layer"] = true
+		switch {
+		case k == 0:
+			labels["entryless_layer_at_bottom"] = true
+		case content:
+			labels["entryless_layer_above_content"] = true
+			if len(views[k-1]) > 1 {
+				labels["entryless_layer_above_nonempty_view"] = true
+			}
+		}
+		if k == len(cs.Image.Layers)-1 {
+			labels["entryless_layer_on_top"] = true
+		} else if content {
+			labels["entryless_layer_between_layers"] = true
+		}
+		if k > 0 && len(cs.Image.Layers[k-1].Entries) == 0 {
+			labels["entryless_layers_adjacent"] = true
+		}
+		// its history entry: an ordinary one (not flagged empty_layer), or none that can be used
+		nonEmpty := 0
+		hist := cs.Image.EffectiveHistory()
+		for _, h := range hist {
+			if !h.Empty {
+				nonEmpty++
+			}
+		}
+		switch {
+		case len(hist) == 0:
+			labels["entryless_layer_without_history"] = true
+		case nonEmpty != len(cs.Image.Layers):
+			labels["entryless_layer_with_mismatched_history"] = true
+		default:
+			labels["entryless_layer_with_ordinary_history_entry"] = true
+			if nonEmpty != len(hist) {
+				labels["entryless_layer_next_to_empty_layer_history_entries"] = true
+			}
+		}
+	}
 }
 
 // c04DroppedLabels counts the shapes in which loader-dropped entries occur.
@@ -1415,7 +1479,9 @@ func c04CheckUnpack(cs c04Case, ld *loaded, final overlay.View, requirer require
 // ---------------------------------------------------------------------------------------
 
 var (
-	c04Top = []string{"a", "b", "c"}
+	// top-level names: a, b, c and, in one draw in eight, the dot-prefixed neighbours ".a" and
+	// "..b" (entries such as /.dockerenv, /.profile, /..data live directly in an image root)
+	c04Top = []string{"a", "b", "c", "a", "b", "c", "a", "b", "c", "a", "b", "c", "a", "b", ".a", "..b"}
 	c04Sub = []string{"x", "y"}
 )
 
@@ -1637,10 +1703,18 @@ func genC04(col *ev.Collector) func(t *rapid.T) c04Case {
 			dropMode = 1
 		}
 		freshName := 0
+		// One case in four may contain entry-less layers: real layers of the image (a v1 layer
+		// with its own diff ID and, when the history is aligned, an ordinary history entry that is
+		// NOT flagged empty_layer) whose tar stream has no entries at all, at any position. Builders
+		// emit them for instructions that change nothing ("RUN true").
+		entryless := rapid.IntRange(0, 3).Draw(t, "entryless_layers") == 0
 		lower := overlay.NewView()
 		for k := 0; k < nLayers; k++ {
 			cs.Image.Layers = append(cs.Image.Layers, tarimg.Layer{Format: rapid.SampledFrom(c04Formats).Draw(t, "format")})
 			L := &cs.Image.Layers[k]
+			if entryless && rapid.IntRange(0, 2).Draw(t, "entryless") == 0 {
+				continue // the view of this layer is the view below it
+			}
 			lo, hi := 1, 6
 			if k == 0 {
 				lo, hi = 2, 8
